@@ -4,7 +4,17 @@
    One line = one request routed by the VirtualHosts dispatcher:
      trusted  the trusted_gateways argument: "none" (not given), "empty" ([]),
               "g" ([g]), "gg2" ((g, g2)), "gset" ({g})
-     remote   "g" | "g2" | "other"        request.remote.ip
+     remote   "g" | "g2" | "other"        the address request.remote.ip is built around
+     rpre     "" | "1" | "v6"             text put in front of it: nothing, a digit
+                                          (gateway 10.0.0.1 -> 110.0.0.1), "::ffff:" (the
+                                          IPv4-mapped IPv6 form of the same host)
+     rpost    "" | "0"                    text put behind it (10.0.0.1 -> 10.0.0.10)
+              An address is this token sequence; two addresses are the same peer
+              only if all three tokens agree.  With rpre = "1" the gateway's text is
+              a proper suffix of the peer's, with rpost = "0" a proper prefix, with
+              both a substring: different hosts.  The IPv4-mapped form of a trusted
+              gateway is the same host written differently: either routing is
+              accepted for it (open).
      xfh      X-Forwarded-Host: "absent" | "mapped" (b.example) | "list"
               ("B.Example , c.example") | "unmapped" | "empty"
      host     Host: "mapped" (a.example) | "unmapped"
@@ -24,8 +34,11 @@ P0 == [n |-> 0]
 
 TrustedSet(t) == CASE t = "g" -> {"g"} [] t = "gset" -> {"g"} [] t = "gg2" -> {"g", "g2"} [] OTHER -> {}
 
+(* the peer is one of the configured gateways (exactly, or its IPv4-mapped form) *)
+FromTrusted(ln) == ln.remote \in TrustedSet(ln.trusted) /\ ln.rpost = "" /\ ln.rpre \in {"", "v6"}
+
 Fail(P, ln) ==
-  IF ln.infl /\ ln.trusted # "none" /\ ln.remote \notin TrustedSet(ln.trusted)
+  IF ln.infl /\ ln.trusted # "none" /\ ~FromTrusted(ln)
   THEN "C20.gateway_untrusted_honoured" ELSE ""
 
 Apply(P, ln) == [P EXCEPT !.n = @ + 1]
